@@ -104,6 +104,7 @@ def cfgs_for(prop, tier):   # noqa: F811  (replaces the draft above)
         out["close_both"] = mk(AllowClose={"A", "B"})
         out["close_drop"] = mk(AllowClose={"A"}, MaxDrops=F(1, 0))
         out["srv_error"] = mk(AllowClose={"A"}, MaxSrvErr=1)
+        out["drop_then_unwelcome"] = mk(MaxDrops=F(1, 0), WelcomeErr=True, MaxSend=F(1, 0))
         out["srv_error_send"] = mk(MaxSrvErr=1, MaxSend=F(1, 0))
         out["close_welcome_err"] = mk(AllowClose={"A"}, WelcomeErr=True, CodeChoices=Raw('[c \\in {"A","B"} |-> IF c = "A" THEN {<<"4","w">>} ELSE {}]'))
         if not q:
@@ -257,8 +258,12 @@ class RealRun:
 
 C01_CODES = [("4-alpha-beta", "4-alpha-beta"), ("4-alpha-beta", "4-alpha-betb"), ("4-alpha-beta", "4-Alpha-beta"),
              ("4-alpha-beta", "5-alpha-beta"), ("4-caf\u00e9-beta", "4-cafe\u0301-beta"), ("4-caf\u00e9-beta", "4-cafe-beta"),
-             ("4-alpha-beta", "4-alpha-beta-"), ("4-", "4-"), ("4-alpha-beta", "4-alpha")]
-C01_PURPOSES = [("wormhole:test", 32), ("other", 32), ("wormhole:test", 16), ("\u00fcn\u00efcode", 64), ("", 1)]
+             ("4-alpha-beta", "4-alpha-beta-"), ("4-", "4-"), ("4-alpha-beta", "4-alpha"),
+             # compatibility-equivalent but NFC-distinct spellings are different codes
+             ("4-\ufb01sh-cake", "4-fish-cake"), ("4-x\u00b2-y", "4-x2-y"), ("4-\uff41lpha-beta", "4-alpha-beta"),
+             ("4-\u212bngstrom-a", "4-\u00c5ngstrom-a")]
+C01_PURPOSES = [("wormhole:test", 32), ("other", 32), ("wormhole:test", 16), ("\u00fcn\u00efcode", 64), ("", 1),
+                ("\ufb01le", 32), ("file", 32)]
 
 
 def c01_case(tid, codes, appids, order, rng):
@@ -318,11 +323,11 @@ def _permute_s2c(run, conn, side, perm, skip_pake=True):
     return True
 
 
-def c03_case(tid, n, perm, reconnect, rng):
+def c03_case(tid, n, perm, reconnect, rng, lazy=False):
     """B queues n application messages; the server holds back B's version and application frames on their way to A
     and then hands them over in the order `perm` (a permutation of those n+1 frames); optionally A's connection is
     dropped part way and the server replays the whole mailbox - PAKE included - in another order."""
-    run = RealRun(tid, "c03-family")
+    run = RealRun(tid, "c03-family", modes={"A": "deferred-lazy", "B": "delegated"} if lazy else None)
     w = run.world
     run.apply({"a": "ConnOpen", "c": "B"})
     run.apply({"a": "AppSetCode", "c": "B", "code": "4-alpha-beta"})
@@ -374,6 +379,11 @@ def c03_case(tid, n, perm, reconnect, rng):
         ok2, _ = hold_and_permute(p2, replay=True)
         ok = ok and ok2
     drained = run.drain()
+    if lazy:
+        # the application asks only now, with everything waiting in the observer's buffer: one get too many stays pending
+        for _ in range(n):
+            run.apply({"a": "AppGet", "c": "A", "kind": "message"})
+        drained = run.drain() and drained
     return run, bool(drained), drained, ok
 
 
@@ -494,7 +504,9 @@ def c02_case(tid, victim, frame_index, op, rng):
                     other = [c for c in w.clients.values() if c.name != victim][0]
                     t = dict(op)
                     if t["op"] == "side":
-                        t["v"] = {"own": conn.client.side, "peer": other.side, "x": "f0f0f0f0f0"}[t["v"]]
+                        # ("own+" / "peer+": a label that differs from a genuine one only by a non-ASCII character)
+                        t["v"] = {"own": conn.client.side, "peer": other.side, "x": "f0f0f0f0f0", "own+": conn.client.side + "\u00e9",
+                                  "peer+": other.side + "\u00e9", "+peer": "\u0660" + other.side}[t["v"]]
                         if t["v"] == fr["side"]:
                             t["v"] = "f0f0f0f0f0"
                     if t["op"] == "flip":
@@ -587,14 +599,15 @@ def random_real_walk(tid, rng, prop, steps=60):
     """Code -> spec: a seeded random walk over the environment actions actually enabled on the real
     system, within the action families the property's environment allows."""
     modes = None
-    if prop == "C18" and rng.random() < 0.4:
+    if (prop == "C18" and rng.random() < 0.4) or (prop in ("C03", "C09", "C02") and rng.random() < 0.25):
         # a Deferred-mode application that does not ask for messages as they come: they wait in the observer's buffer
         modes = {"A": "deferred-lazy", "B": "delegated"}
     run = RealRun(tid, "random", modes=modes)
     w = run.world
     budget = {"Drop": rng.choice([0, 1, 2]), "Dup": rng.choice([0, 1]), "SwapS2C": rng.choice([0, 1]),
               "send": {"A": rng.choice([0, 1, 2]), "B": rng.choice([0, 1, 2])},
-              "close": prop in ("C08", "C14", "C18") and rng.random() < 0.8, "welcome_error": False}
+              "close": prop in ("C08", "C14", "C18") and rng.random() < 0.8,
+              "welcome_error": prop in ("C08", "C14", "C18") and rng.random() < 0.3}
     budget["SrvErr"] = rng.choice([0, 0, 1]) if prop in ("C08", "C14", "C18") else 0
     if prop in ("C03", "C09", "C02", "C01"):
         budget["close"] = False
@@ -614,6 +627,9 @@ def random_real_walk(tid, rng, prop, steps=60):
                 if budget["Drop"] > 0 and rng.random() < 0.15:
                     acts.append(a)
                 continue
+            if t == "ConnOpen" and budget["welcome_error"] and rng.random() < 0.3:
+                # the operator has told the server to turn clients away (welcome.error), possibly only on a reconnect
+                a = dict(a, welcome_error=True)
             acts.append(a)
             if t in ("Serve", "Deliver"):
                 acts.append(a)      # bias towards progress
@@ -622,6 +638,8 @@ def random_real_walk(tid, rng, prop, steps=60):
                 if conn.state == "open" and not conn.closing:
                     acts.append({"a": "SrvSend", "k": conn.id, "msg": {"type": "error", "error": "unprovoked", "orig": {}}})
         for c in ("A", "B"):
+            if w.clients[c].lazy and prop in ("C03", "C09", "C02") and rng.random() < 0.2:
+                acts.append({"a": "AppGet", "c": c, "kind": "message"})
             if w.clients[c].mode == "deferred" and prop in ("C18", "C08", "C14") and rng.random() < 0.12 and late_budget[c] > 0:
                 kinds = ["code", "key", "verifier", "versions", "welcome"]
                 if w.clients[c].lazy or any(k == "closed" for k, _ in w.clients[c].events):
@@ -848,7 +866,7 @@ def run_pipeline(prop, tier, v, quick):
         if prop == "C01":
             fam = []
             for codes in C01_CODES:
-                for appids in ({"A": "appid", "B": "appid"}, {"A": "appid", "B": "appid2"}):
+                for appids in ({"A": "appid", "B": "appid"}, {"A": "appid", "B": "appid2"}, {"A": "app\ufb01d", "B": "appfid"}):
                     for order in ("a-first", "b-first", "late", "stash"):
                         if quick and order in ("b-first",) and codes != C01_CODES[0]:
                             continue
@@ -867,7 +885,10 @@ def run_pipeline(prop, tier, v, quick):
             ops = [{"op": "side", "v": "own"}, {"op": "side", "v": "x"}, {"op": "phase", "v": "pake"}, {"op": "phase", "v": "version"},
                    {"op": "phase", "v": "0"}, {"op": "phase", "v": "1"}, {"op": "phase", "v": "7"},
                    {"op": "flip", "where": "first"}, {"op": "flip", "where": "last"}, {"op": "flip", "where": "mid"}, {"op": "flip", "where": "rand"},
-                   {"op": "truncate"}, {"op": "extend"}, {"op": "replay", "v": "1"}, {"op": "replay", "v": "version"}]
+                   {"op": "truncate"}, {"op": "extend"}, {"op": "replay", "v": "1"}, {"op": "replay", "v": "version"},
+                   {"op": "side", "v": "own+"}, {"op": "side", "v": "peer+"}, {"op": "side", "v": "+peer"},
+                   {"op": "phase", "v": "0\u0661"}, {"op": "phase", "v": "\u0660" + "1"}, {"op": "phase", "v": "versi\u00f6n"},
+                   {"op": "replay", "v": "0\u0661"}, {"op": "replay", "v": "1\u0660"}, {"op": "replay", "v": "\u0660" + "2"}]
             n = 0
             for victim in ("A", "B"):
                 for idx in range(7):
@@ -913,17 +934,18 @@ def run_pipeline(prop, tier, v, quick):
                 fam = fam[:30] + frng.sample(fam[30:], 30)
             nperm = 0
             for (n_, perm) in fam:
-                for reconnect in (None, frng.randrange(0, n_ + 1)):
+                for reconnect in (None, frng.randrange(0, n_ + 1), "lazy"):
                     tid += 1
                     try:
-                        run_, goal, drained, ok = c03_case(tid, n_, list(perm), reconnect, frng)
+                        run_, goal, drained, ok = c03_case(tid, n_, list(perm), None if reconnect == "lazy" else reconnect, frng,
+                                                           lazy=(reconnect == "lazy"))
                     except Exception as e:
                         cov.setdefault("family_errors", []).append(repr(e)[:120])
                         continue
                     nperm += bool(ok)
                     runs[tid] = run_
                     records.append(run_.finish(drained, goal=goal))
-            cov["c03_family_cases"] = 2 * len(fam)
+            cov["c03_family_cases"] = 3 * len(fam)
             cov["c03_family_permuted"] = nperm
         if prop == "C18":
             n = 0
